@@ -792,4 +792,543 @@ theorem completeDefinition_sem (I : Interp) (q : String) (fvars : List String) (
   · rintro ⟨f, hf, h⟩
     exact ⟨_, List.mem_map.mpr ⟨f, hf, rfl⟩, (key f hf).mpr h⟩
 
+/-! ## the bodies collected for a head atom -/
+
+theorem tauRuleBody_sat (T : PredI) (fc : FcI) (ch : Bool) (a : Asp.Atom) (r : Rule) (globals : List String)
+    (hlen : a.args.length ≤ globals.length) (τ : Asg) :
+    sat ⟨T, fc⟩ (tauRuleBody ch a r globals) τ ↔
+      (valsList (σOf τ) a.args ((globals.take a.args.length).map (σOf τ)) ∧
+        bodySat ⟨T, T, fc⟩ .there (σOf τ) r.body ∧
+        (ch = true → T a.pred ((globals.take a.args.length).map (σOf τ)))) := by
+  rw [← ht_same T fc _ .there τ]
+  have hfl : (globals.take a.args.length).length = a.args.length := by rw [List.length_take]; omega
+  have hz := valsZip ⟨T, T, fc⟩ .there τ a.args (globals.take a.args.length) hfl.symm
+  have hcore : ht ⟨T, T, fc⟩ (if a.args.length > 0 then
+      Formula.bin .and (conjoin ((a.args.zip (globals.take a.args.length)).map fun (t, v) => val t ⟨v, .general⟩))
+        (tauBody r.body) else tauBody r.body) .there τ ↔
+      (valsList (σOf τ) a.args ((globals.take a.args.length).map (σOf τ)) ∧
+        bodySat ⟨T, T, fc⟩ .there (σOf τ) r.body) := by
+    split
+    · simp only [ht, ht_conjoin, tauBody_sem]
+      rw [hz]; rfl
+    · rename_i hpos
+      have h0 : a.args = [] := by
+        cases h : a.args with
+        | nil => rfl
+        | cons _ _ => rw [h] at hpos; simp at hpos
+      rw [tauBody_sem, h0]
+      simp [valsList]
+  unfold tauRuleBody
+  cases ch with
+  | false => simp only [Bool.false_eq_true, if_false, false_imp_iff, and_true]; exact hcore
+  | true =>
+    simp only [if_true, true_imp_iff]
+    rw [show ∀ (A B : Formula), ht ⟨T, T, fc⟩ (.bin .and A B) .there τ ↔
+        (ht ⟨T, T, fc⟩ A .there τ ∧ ht ⟨T, T, fc⟩ B .there τ) from fun _ _ => Iff.rfl, hcore]
+    unfold tauHeadAtom
+    rw [ht_notnot_atom_vars, and_assoc]
+
+theorem tauRuleBody_general (ch : Bool) (a : Asp.Atom) (r : Rule) (globals : List String) (x : Var)
+    (h : (tauRuleBody ch a r globals).FV x) : x.sort = .general := by
+  have hcore : (if a.args.length > 0 then
+      Formula.bin .and (conjoin ((a.args.zip (globals.take a.args.length)).map fun (t, v) => val t ⟨v, .general⟩))
+        (tauBody r.body) else tauBody r.body).FV x → x.sort = .general := by
+    intro h
+    split at h
+    · rcases h with h | h
+      · rcases valsConj_FV h with hg | ⟨t, _, hg⟩
+        · exact hg.1
+        · exact hg.1
+      · exact (tauBody_FV r.body x h).1
+    · exact (tauBody_FV r.body x h).1
+  unfold tauRuleBody at h
+  cases ch with
+  | false => simp only [Bool.false_eq_true, if_false] at h; exact hcore h
+  | true =>
+    simp only [if_true] at h
+    rcases h with h | h
+    · exact hcore h
+    · exact (FV_atom_vars (p := a.pred) (zs := globals.take a.args.length) h).1
+
+/-- the head of a rule, with the flag saying whether it is a choice -/
+def HeadOf (r : Rule) (a : Asp.Atom) (ch : Bool) : Prop :=
+  (r.head = .basic a ∧ ch = false) ∨ (r.head = .choice a ∧ ch = true)
+
+theorem mem_comps_partialDef (P : Program) (globals : List String) (f : Formula) (A : Anthem.Atom) :
+    Component.partialDef f A ∈ P.map (fun r => ruleComponent r globals) ↔
+      ∃ r ∈ P, ∃ a ch, HeadOf r a ch ∧ f = tauRuleBody ch a r globals ∧ A = tauHeadAtom a globals := by
+  simp only [List.mem_map]
+  constructor
+  · rintro ⟨r, hr, hc⟩
+    unfold ruleComponent at hc
+    cases hh : r.head with
+    | falsity => rw [hh] at hc; cases hc
+    | basic a =>
+      rw [hh] at hc
+      injection hc with h1 h2
+      exact ⟨r, hr, a, false, Or.inl ⟨hh, rfl⟩, h1.symm, h2.symm⟩
+    | choice a =>
+      rw [hh] at hc
+      injection hc with h1 h2
+      exact ⟨r, hr, a, true, Or.inr ⟨hh, rfl⟩, h1.symm, h2.symm⟩
+  · rintro ⟨r, hr, a, ch, hh, rfl, rfl⟩
+    refine ⟨r, hr, ?_⟩
+    unfold ruleComponent
+    rcases hh with ⟨hh, rfl⟩ | ⟨hh, rfl⟩ <;> rw [hh]
+
+theorem mem_comps_constraint (P : Program) (globals : List String) (c : Formula) :
+    Component.constraint c ∈ P.map (fun r => ruleComponent r globals) ↔
+      ∃ r ∈ P, r.head = .falsity ∧ c = .bin .imp (tauBody r.body) .fls := by
+  simp only [List.mem_map]
+  constructor
+  · rintro ⟨r, hr, hc⟩
+    unfold ruleComponent at hc
+    cases hh : r.head with
+    | falsity => rw [hh] at hc; injection hc with h1; exact ⟨r, hr, hh, h1.symm⟩
+    | basic a => rw [hh] at hc; cases hc
+    | choice a => rw [hh] at hc; cases hc
+  · rintro ⟨r, hr, hh, rfl⟩
+    exact ⟨r, hr, by unfold ruleComponent; rw [hh]⟩
+
+theorem tauHeadAtom_eq {a a' : Asp.Atom} {globals : List String} (h1 : a.args.length ≤ globals.length)
+    (h2 : a'.args.length ≤ globals.length) :
+    tauHeadAtom a globals = tauHeadAtom a' globals ↔ a.pred = a'.pred ∧ a.args.length = a'.args.length := by
+  unfold tauHeadAtom
+  constructor
+  · intro h
+    injection h with hp ha
+    refine ⟨hp, ?_⟩
+    have := congrArg List.length ha
+    simp only [List.length_map, List.length_take] at this
+    omega
+  · rintro ⟨hp, hl⟩
+    rw [hp, hl]
+
+theorem tauHeadAtom_predicate (a : Asp.Atom) (globals : List String) (h : a.args.length ≤ globals.length) :
+    (tauHeadAtom a globals).predicate = a.predicate := by
+  simp only [tauHeadAtom, Anthem.Atom.predicate, Asp.Atom.predicate, List.length_map, List.length_take]
+  congr 1
+  omega
+
+theorem push_nonempty (d : Definitions) (h : ∀ e ∈ d, e.2 ≠ []) (a : Anthem.Atom) (f : Formula) :
+    ∀ e ∈ d.push a f, e.2 ≠ [] := by
+  intro e he
+  unfold Definitions.push at he
+  split at he
+  · obtain ⟨e0, he0, heq⟩ := List.mem_map.mp he
+    split at heq
+    · rw [← heq]; simp
+    · rw [← heq]; exact h e0 he0
+  · rcases List.mem_append.mp he with he | he
+    · exact h e he
+    · simp only [List.mem_singleton] at he; rw [he]; simp
+
+theorem collect_nonempty : ∀ (cs : List Component) (init : Definitions × List Formula),
+    (∀ e ∈ init.1, e.2 ≠ []) → ∀ e ∈ (collect cs init).1, e.2 ≠ [] := by
+  intro cs
+  induction cs with
+  | nil => intro init h; exact h
+  | cons c cs ih =>
+    intro init h
+    simp only [collect, List.foldl_cons]
+    cases c with
+    | constraint f => exact ih _ h
+    | partialDef f a => exact ih _ (push_nonempty init.1 h a f)
+
+/-! ## the predicates of the tau* theory -/
+
+theorem preds_conjoin {fs : List Formula} {f : Formula} {q : Pred} (hf : f ∈ fs) (hq : q ∈ f.preds) :
+    q ∈ (conjoin fs).preds := by
+  cases fs with
+  | nil => cases hf
+  | cons f0 fs =>
+    simp only [conjoin]
+    suffices hs : ∀ (l : List Formula) (acc : Formula), (q ∈ acc.preds ∨ ∃ g ∈ l, q ∈ g.preds) →
+        q ∈ (l.foldl (fun acc e => Formula.bin .and acc e) acc).preds by
+      rcases List.mem_cons.mp hf with rfl | hf
+      · exact hs fs _ (Or.inl hq)
+      · exact hs fs _ (Or.inr ⟨f, hf, hq⟩)
+    intro l
+    induction l with
+    | nil => intro acc h; rcases h with h | ⟨g, hg, _⟩; exact h; cases hg
+    | cons e l ih =>
+      intro acc h
+      apply ih
+      rcases h with h | ⟨g, hg, h⟩
+      · exact Or.inl (by simp only [Formula.preds, mem_ext]; exact Or.inl h)
+      · rcases List.mem_cons.mp hg with rfl | hg
+        · exact Or.inl (by simp only [Formula.preds, mem_ext]; exact Or.inr h)
+        · exact Or.inr ⟨g, hg, h⟩
+
+theorem preds_signed (s : Sign) (A : Formula) : (signed s A).preds = A.preds := by
+  cases s <;> rfl
+
+theorem tauB_preds (f : BodyAtom) (q : Pred) (h : q ∈ f.preds) : q ∈ (tauB f).preds := by
+  cases f with
+  | cmp _ _ _ => simp [BodyAtom.preds] at h
+  | lit l =>
+    obtain ⟨s, a⟩ := l
+    simp only [BodyAtom.preds, List.mem_singleton] at h
+    subst h
+    unfold tauB
+    simp only
+    split
+    · simp only [Formula.preds, mem_ext, preds_signed, AtomicF.preds, Anthem.Atom.predicate, List.length_map,
+        (chooseFresh_spec (BodyAtom.lit ⟨s, a⟩).vars "Z" a.args.length).2.2, List.mem_singleton]
+      exact Or.inr rfl
+    · rename_i hpos
+      have h0 : a.args.length = 0 := by omega
+      simp [preds_signed, Formula.preds, AtomicF.preds, Anthem.Atom.predicate, Asp.Atom.predicate, h0]
+
+theorem tauBody_preds (b : List BodyAtom) (q : Pred) (h : q ∈ bodyPreds b) : q ∈ (tauBody b).preds := by
+  obtain ⟨f, hf, hq⟩ := mem_bodyPreds.mp h
+  exact preds_conjoin (List.mem_map.mpr ⟨f, hf, rfl⟩) (tauB_preds f q hq)
+
+theorem tauStarRule_preds (r : Rule) (globals : List String) (hlen : r.head.arity ≤ globals.length)
+    (q : Pred) (h : q ∈ r.preds) : q ∈ (tauStarRule r globals).preds := by
+  unfold Rule.preds at h
+  rw [mem_ext] at h
+  cases hh : r.head with
+  | falsity =>
+    rw [hh] at h
+    simp only [Head.predicate, List.not_mem_nil, false_or] at h
+    unfold tauStarRule
+    simp only [hh]
+    split <;> (simp only [Formula.preds, mem_ext]; exact Or.inl (tauBody_preds r.body q h))
+  | basic a | choice a =>
+    all_goals
+      first
+        | rw [tauStarRule_basic r a globals hh]
+        | rw [tauStarRule_choice r a globals hh]
+      rw [hh] at h hlen
+      simp only [Head.predicate, List.mem_singleton, Head.arity] at h hlen
+      have hhead : q = a.predicate → q ∈ (Formula.atomic (.atom (tauHeadAtom a globals))).preds := by
+        intro e
+        simp only [Formula.preds, AtomicF.preds, List.mem_singleton]
+        rw [tauHeadAtom_predicate a globals hlen]; exact e
+      unfold headRuleFormula
+      split
+      · simp only [Formula.preds, mem_ext]
+        rcases h with h | h
+        · exact Or.inr (hhead h)
+        · left
+          split <;> simp only [Formula.preds, mem_ext]
+          · exact Or.inl (Or.inr (tauBody_preds r.body q h))
+          · exact Or.inr (tauBody_preds r.body q h)
+      · rename_i hpos
+        have h0 : a.args.length = 0 := by omega
+        have hhead0 : q = a.predicate → q ∈ (Formula.atomic (.atom ⟨a.pred, []⟩)).preds := by
+          intro e
+          simp [Formula.preds, AtomicF.preds, Anthem.Atom.predicate, Asp.Atom.predicate, e, h0]
+        have key : ∀ G : Formula, q ∈ G.preds →
+            q ∈ (if (sortedGeneral r.vars).isEmpty then G else .quant .all (sortedGeneral r.vars) G).preds := by
+          intro G hG; split <;> exact hG
+        apply key
+        simp only [Formula.preds, mem_ext]
+        rcases h with h | h
+        · exact Or.inr (hhead0 h)
+        · left
+          split
+          · simp only [Formula.preds, mem_ext]; exact Or.inl (tauBody_preds r.body q h)
+          · exact tauBody_preds r.body q h
+
+theorem tauStar_preds (P : Program) (hp : globalsPanic P = false) (q : Pred) (h : q ∈ P.preds) :
+    q ∈ Theory.preds (tauStar P) := by
+  obtain ⟨r, hr, hq⟩ := mem_program_preds.mp h
+  unfold Theory.preds
+  rw [mem_foldl_ext]
+  refine Or.inr ⟨tauStarRule r (chooseFreshGlobals P), List.mem_map.mpr ⟨r, hr, rfl⟩, ?_⟩
+  exact tauStarRule_preds r _ (by rw [(chooseFreshGlobals_spec P hp).2.2]; exact arity_le_maxHeadArity P r hr) q hq
+
+/-! ## assembling: the completion of the tau* theory of a program -/
+
+theorem mem_headPreds (P : Program) (q : Pred) : q ∈ P.headPreds ↔ ∃ r ∈ P, r.head.predicate = some q := by
+  unfold Program.headPreds
+  suffices h : ∀ (l : Program) (init : List Pred),
+      q ∈ l.foldl headPredStep init ↔ q ∈ init ∨ ∃ r ∈ l, r.head.predicate = some q by
+    simpa using h P []
+  intro l
+  induction l with
+  | nil => intro init; simp
+  | cons r l ih =>
+    intro init
+    simp only [List.foldl_cons, ih, List.mem_cons, exists_eq_or_imp]
+    unfold headPredStep
+    cases hh : r.head.predicate with
+    | none => simp
+    | some q' =>
+      simp only [mem_ins, Option.some.injEq]
+      constructor
+      · rintro ((h | h) | h)
+        · exact Or.inl h
+        · exact Or.inr (Or.inl h.symm)
+        · exact Or.inr (Or.inr h)
+      · rintro (h | h | h)
+        · exact Or.inl (Or.inl h)
+        · exact Or.inl (Or.inr h.symm)
+        · exact Or.inr h
+
+theorem keys_unique {d : Definitions} (hnd : (d.map (·.1)).Nodup) {A : Anthem.Atom} {fs fs' : List Formula}
+    (h : (A, fs) ∈ d) (h' : (A, fs') ∈ d) : fs = fs' := by
+  induction d with
+  | nil => cases h
+  | cons e d ih =>
+    simp only [List.map_cons, List.nodup_cons] at hnd
+    have hkey : ∀ gs, (A, gs) ∈ d → A ∈ d.map (·.1) := fun gs hg => List.mem_map.mpr ⟨(A, gs), hg, rfl⟩
+    rcases List.mem_cons.mp h with h | h <;> rcases List.mem_cons.mp h' with h' | h'
+    · rw [← h] at h'; injection h' with _ e2; exact e2.symm
+    · rw [← h] at hnd; exact absurd (hkey _ h') hnd.1
+    · rw [← h'] at hnd; exact absurd (hkey _ h) hnd.1
+    · exact ih hnd.2 h h'
+
+theorem headOf_predicate {r : Rule} {a : Asp.Atom} {ch : Bool} (h : HeadOf r a ch) :
+    r.head.predicate = some a.predicate := by
+  rcases h with ⟨h, _⟩ | ⟨h, _⟩ <;> rw [h] <;> rfl
+
+theorem headOf_arity {r : Rule} {a : Asp.Atom} {ch : Bool} (h : HeadOf r a ch) : r.head.arity = a.args.length := by
+  rcases h with ⟨h, _⟩ | ⟨h, _⟩ <;> rw [h] <;> rfl
+
+/-- a well-sorted assignment standing for a substitution -/
+def asgOf (σ : Subst) : Asg := fun v =>
+  match v.sort with
+  | .general => σ v.name
+  | .integer => .num 0
+  | .symbol => .sym ""
+
+theorem asgOf_ws (σ : Subst) : WSAsg (asgOf σ) := by
+  intro v; obtain ⟨n, s⟩ := v; cases s <;> simp [asgOf, Dom.inSort]
+
+theorem σOf_asgOf (σ : Subst) : σOf (asgOf σ) = σ := rfl
+
+theorem constraint_sem (T : PredI) (fc : FcI) (r : Rule) (hh : r.head = .falsity) (ρ : Asg) :
+    sat ⟨T, fc⟩ (Formula.bin .imp (tauBody r.body) .fls).universalClosure ρ ↔ ruleSat ⟨T, T, fc⟩ .there r := by
+  rw [← ht_same T fc _ .there ρ, ht_universalClosure]
+  unfold ruleSat
+  rw [hh]
+  simp only [headSat]
+  constructor
+  · intro h σ
+    have := h (asgOf σ) (asgOf_ws σ)
+    simp only [ht, tauBody_sem, Formula.fls, AtomicF.sat, σOf_asgOf] at this
+    exact this
+  · intro h τ _
+    simp only [ht, tauBody_sem, Formula.fls, AtomicF.sat]
+    exact h (σOf τ)
+
+/-- the reference form of one completed definition -/
+def DefHolds (P : Program) (T : PredI) (fc : FcI) (q : String) (n : Nat) : Prop :=
+  ∀ ds : List Dom, ds.length = n →
+    (T q ds ↔ ∃ r ∈ P, ∃ a ch, HeadOf r a ch ∧ a.pred = q ∧ a.args.length = n ∧
+      ∃ σ : Subst, valsList σ a.args ds ∧ bodySat ⟨T, T, fc⟩ .there σ r.body ∧ (ch = true → T q ds))
+
+theorem entry_sem (P : Program) (hp : globalsPanic P = false) (T : PredI) (fc : FcI) (ρ : Asg)
+    (A : Anthem.Atom) (fs : List Formula)
+    (hA : (A, fs) ∈ (collect (P.map fun r => ruleComponent r (chooseFreshGlobals P)) ([], [])).1)
+    (a0 : Asp.Atom) (hlen0 : a0.args.length ≤ (chooseFreshGlobals P).length)
+    (hA0 : A = tauHeadAtom a0 (chooseFreshGlobals P)) :
+    sat ⟨T, fc⟩ (completeDefinition A fs) ρ ↔ DefHolds P T fc a0.pred a0.args.length := by
+  obtain ⟨hn, hfresh, hglen⟩ := chooseFreshGlobals_spec P hp
+  obtain ⟨hspec, _⟩ := collect_spec (P.map fun r => ruleComponent r (chooseFreshGlobals P)) ([], [])
+    (fun _ _ => False) ⟨List.nodup_nil, by simp⟩
+  simp only [false_or] at hspec
+  have hfl : ((chooseFreshGlobals P).take a0.args.length).length = a0.args.length := by
+    rw [List.length_take]; omega
+  have hfn : ((chooseFreshGlobals P).take a0.args.length).Nodup := hn.sublist (List.take_sublist _ _)
+  have hfs : ∀ f, f ∈ fs ↔ Component.partialDef f A ∈ P.map fun r => ruleComponent r (chooseFreshGlobals P) := by
+    intro f
+    constructor
+    · intro hf; exact (hspec.2 A f).mp ⟨fs, hA, hf⟩
+    · intro hc
+      obtain ⟨fs', hA', hf⟩ := (hspec.2 A f).mpr hc
+      rw [keys_unique hspec.1 hA hA']; exact hf
+  have hgen : ∀ f ∈ fs, ∀ x, f.FV x → x.sort = .general := by
+    intro f hf x hx
+    obtain ⟨r, _, a, ch, _, rfl, _⟩ := (mem_comps_partialDef P _ f A).mp ((hfs f).mp hf)
+    exact tauRuleBody_general ch a r _ x hx
+  rw [hA0]
+  unfold tauHeadAtom
+  rw [completeDefinition_sem ⟨T, fc⟩ a0.pred _ hfn fs hgen ρ, hfl]
+  unfold DefHolds
+  refine forall_congr' fun ds => imp_congr_right fun hds => iff_congr Iff.rfl ?_
+  constructor
+  · rintro ⟨f, hf, τ', hmap, hs⟩
+    obtain ⟨r, hr, a, ch, hh, rfl, hAa⟩ := (mem_comps_partialDef P _ f A).mp ((hfs f).mp hf)
+    have hla : a.args.length ≤ (chooseFreshGlobals P).length := by
+      rw [hglen, ← headOf_arity hh]; exact arity_le_maxHeadArity P r hr
+    rw [hA0] at hAa
+    obtain ⟨hp', hl'⟩ := (tauHeadAtom_eq hlen0 hla).mp hAa
+    rw [tauRuleBody_sat T fc ch a r _ hla τ', ← hl'] at hs
+    have hm : ((chooseFreshGlobals P).take a0.args.length).map (σOf τ') = ds := hmap
+    rw [hm, ← hp'] at hs
+    exact ⟨r, hr, a, ch, hh, hp'.symm, hl'.symm, σOf τ', hs⟩
+  · rintro ⟨r, hr, a, ch, hh, hpa, hla', σ, hv, hb, hc⟩
+    have hla : a.args.length ≤ (chooseFreshGlobals P).length := by
+      rw [hglen, ← headOf_arity hh]; exact arity_le_maxHeadArity P r hr
+    have hAa : A = tauHeadAtom a (chooseFreshGlobals P) := by
+      rw [hA0]; exact (tauHeadAtom_eq hlen0 hla).mpr ⟨hpa.symm, hla'.symm⟩
+    refine ⟨tauRuleBody ch a r _, (hfs _).mpr ((mem_comps_partialDef P _ _ A).mpr
+      ⟨r, hr, a, ch, hh, rfl, hAa⟩), assignGen (fun v => σ v.name) ((chooseFreshGlobals P).take a0.args.length) ds, ?_, ?_⟩
+    · exact assignGen_map _ _ ds hfn (by rw [hfl, hds])
+    · rw [tauRuleBody_sat T fc ch a r _ hla, hla']
+      have hm : ((chooseFreshGlobals P).take a0.args.length).map
+          (σOf (assignGen (fun v => σ v.name) ((chooseFreshGlobals P).take a0.args.length) ds)) = ds :=
+        assignGen_map _ _ ds hfn (by rw [hfl, hds])
+      rw [hm, hpa]
+      have hag : ∀ x ∈ r.vars, σOf (assignGen (fun v => σ v.name) ((chooseFreshGlobals P).take a0.args.length) ds) x = σ x := by
+        intro x hx
+        show assignGen _ _ ds ⟨x, .general⟩ = σ x
+        rw [assignGen_other]
+        intro z hz e
+        injection e with e; subst e
+        exact hfresh _ (List.mem_of_mem_take hz) (rule_vars_subset P r hr _ hx)
+      have hsub := head_vars_subset r a (by rcases hh with ⟨h, _⟩ | ⟨h, _⟩ <;> simp [h])
+      refine ⟨(valsList_congr a.args ds fun t ht x hx => hag x (hsub t ht x hx)).mpr hv,
+        (bodySat_congr _ _ r.body fun x hx => hag x (body_vars_subset r x hx)).mpr hb, hc⟩
+
+theorem emptyDefinition_sem (T : PredI) (fc : FcI) (p : Pred) (ρ : Asg) :
+    sat ⟨T, fc⟩ (completeDefinition (atomFromPred p) []) ρ ↔ ∀ ds : List Dom, ds.length = p.arity → ¬ T p.symbol ds := by
+  obtain ⟨hnd, _, hl⟩ := chooseFresh_spec ["V"] "V" p.arity
+  unfold atomFromPred
+  rw [completeDefinition_sem ⟨T, fc⟩ p.symbol _ hnd [] (by simp) ρ, hl]
+  simp
+
+/-- **C04: the completion of the tau\* theory of a tight program has exactly the stable models.** -/
+theorem completion_tight (P : Program) (ins : List Pred) (htight : isTight P = true)
+    (hp : globalsPanic P = false) (hins : ∀ q ∈ ins, q ∉ P.headPreds) :
+    ∃ Γ, completion (tauStar P) ins = some Γ ∧
+      ∀ (T : PredI) (fc : FcI) (ρ : Asg),
+        (∀ q a, T q a → (⟨q, a.length⟩ : Pred) ∈ ext P.preds ins) →
+        ((∀ F ∈ Γ, sat ⟨T, fc⟩ F ρ) ↔ Stable P ins T fc) := by
+  obtain ⟨hn, hfresh, hglen⟩ := chooseFreshGlobals_spec P hp
+  have hcomp := components_tauStar P hp
+  obtain ⟨hspec, hcons⟩ := collect_spec (P.map fun r => ruleComponent r (chooseFreshGlobals P)) ([], [])
+    (fun _ _ => False) ⟨List.nodup_nil, by simp⟩
+  simp only [false_or, List.not_mem_nil] at hspec hcons
+  have hne := collect_nonempty (P.map fun r => ruleComponent r (chooseFreshGlobals P)) ([], []) (by simp)
+  -- every entry comes from a rule head
+  have hentry : ∀ e ∈ (collect (P.map fun r => ruleComponent r (chooseFreshGlobals P)) ([], [])).1,
+      ∃ r ∈ P, ∃ a ch, HeadOf r a ch ∧ e.1 = tauHeadAtom a (chooseFreshGlobals P) ∧
+        a.args.length ≤ (chooseFreshGlobals P).length := by
+    intro e he
+    obtain ⟨f, hf⟩ := List.exists_mem_of_ne_nil _ (hne e he)
+    obtain ⟨r, hr, a, ch, hh, _, hA⟩ := (mem_comps_partialDef P _ f e.1).mp ((hspec.2 e.1 f).mp ⟨e.2, he, hf⟩)
+    exact ⟨r, hr, a, ch, hh, hA, by rw [hglen, ← headOf_arity hh]; exact arity_le_maxHeadArity P r hr⟩
+  have hkeys : ∀ e ∈ (collect (P.map fun r => ruleComponent r (chooseFreshGlobals P)) ([], [])).1,
+      ∀ e' ∈ (collect (P.map fun r => ruleComponent r (chooseFreshGlobals P)) ([], [])).1,
+      e.1.predicate = e'.1.predicate → e.1 = e'.1 := by
+    intro e he e' he' hpe
+    obtain ⟨_, _, a, _, _, hA, hl⟩ := hentry e he
+    obtain ⟨_, _, a', _, _, hA', hl'⟩ := hentry e' he'
+    rw [hA, hA'] at hpe ⊢
+    rw [tauHeadAtom_predicate a _ hl, tauHeadAtom_predicate a' _ hl'] at hpe
+    simp only [Asp.Atom.predicate, Pred.mk.injEq] at hpe
+    exact (tauHeadAtom_eq hl hl').mpr hpe
+  obtain ⟨Γ, hΓ, hmem⟩ := completion_formulas (tauStar P) ins _ _ hcomp hkeys
+  refine ⟨Γ, hΓ, fun T fc ρ hsig => ?_⟩
+  rw [tight_stable_iff_supported P htight ins T fc]
+  -- an entry exists for every rule head
+  have hexists : ∀ r ∈ P, ∀ a ch, HeadOf r a ch →
+      ∃ fs, (tauHeadAtom a (chooseFreshGlobals P), fs) ∈
+        (collect (P.map fun r => ruleComponent r (chooseFreshGlobals P)) ([], [])).1 := by
+    intro r hr a ch hh
+    obtain ⟨fs, hfs, _⟩ := (hspec.2 _ _).mpr ((mem_comps_partialDef P _ _ _).mpr ⟨r, hr, a, ch, hh, rfl, rfl⟩)
+    exact ⟨fs, hfs⟩
+  have hla : ∀ r ∈ P, ∀ a ch, HeadOf r a ch → a.args.length ≤ (chooseFreshGlobals P).length := by
+    intro r hr a ch hh
+    rw [hglen, ← headOf_arity hh]; exact arity_le_maxHeadArity P r hr
+  have hnotin : ∀ r ∈ P, ∀ a ch, HeadOf r a ch → a.predicate ∉ ins := fun r hr a ch hh hin =>
+    hins _ hin ((mem_headPreds P _).mpr ⟨r, hr, headOf_predicate hh⟩)
+  constructor
+  · -- completion ⇒ supported model
+    intro hall
+    have hdef : ∀ r ∈ P, ∀ a ch, HeadOf r a ch → DefHolds P T fc a.pred a.args.length := by
+      intro r hr a ch hh
+      obtain ⟨fs, hfs⟩ := hexists r hr a ch hh
+      have hF := hall _ ((hmem _).mpr (Or.inr (Or.inl ⟨_, hfs, by
+        rw [tauHeadAtom_predicate a _ (hla r hr a ch hh)]; exact hnotin r hr a ch hh, rfl⟩)))
+      exact (entry_sem P hp T fc ρ _ fs hfs a (hla r hr a ch hh) rfl).mp hF
+    refine ⟨?_, ?_⟩
+    · intro r hr
+      cases hh : r.head with
+      | falsity =>
+        have hF := hall _ ((hmem _).mpr (Or.inl ⟨_, (hcons _).mpr ((mem_comps_constraint P _ _).mpr
+          ⟨r, hr, hh, rfl⟩), rfl⟩))
+        exact (constraint_sem T fc r hh ρ).mp hF
+      | basic a =>
+        have hd := hdef r hr a false (Or.inl ⟨hh, rfl⟩)
+        intro σ
+        have : bodySat ⟨T, T, fc⟩ .there σ r.body → headSat ⟨T, T, fc⟩ .there σ r.head := by
+          intro hb
+          rw [hh]
+          intro ds hv
+          exact (hd ds (valsList_length hv)).mpr ⟨r, hr, a, false, Or.inl ⟨hh, rfl⟩, rfl, rfl, σ, hv, hb,
+            fun e => by cases e⟩
+        exact ⟨this, this⟩
+      | choice a =>
+        intro σ
+        have : bodySat ⟨T, T, fc⟩ .there σ r.body → headSat ⟨T, T, fc⟩ .there σ r.head := by
+          intro _
+          rw [hh]
+          intro ds _
+          exact Classical.em _
+        exact ⟨this, this⟩
+    · intro q ds hT hni
+      -- the predicate belongs to the program
+      have hqP : (⟨q, ds.length⟩ : Pred) ∈ P.preds := by
+        rcases mem_ext.mp (hsig q ds hT) with h | h
+        · exact h
+        · exact absurd h hni
+      by_cases hex : ∃ e ∈ (collect (P.map fun r => ruleComponent r (chooseFreshGlobals P)) ([], [])).1,
+          e.1.predicate = ⟨q, ds.length⟩
+      · obtain ⟨e, he, hpe⟩ := hex
+        obtain ⟨r0, hr0, a0, ch0, hh0, hA0, hl0⟩ := hentry e he
+        rw [hA0, tauHeadAtom_predicate a0 _ hl0] at hpe
+        simp only [Asp.Atom.predicate, Pred.mk.injEq] at hpe
+        have hd := hdef r0 hr0 a0 ch0 hh0
+        rw [hpe.1, hpe.2] at hd
+        obtain ⟨r, hr, a, ch, hh, hpa, _, σ, hv, hb, _⟩ := (hd ds rfl).mp hT
+        exact ⟨r, hr, a, by rcases hh with ⟨h, _⟩ | ⟨h, _⟩ <;> simp [h], hpa, σ, hv, hb⟩
+      · -- no definition: the empty definition says the predicate is empty
+        have hno : ∀ e ∈ (collect (P.map fun r => ruleComponent r (chooseFreshGlobals P)) ([], [])).1,
+            e.1.predicate ≠ ⟨q, ds.length⟩ := fun e he hpe => hex ⟨e, he, hpe⟩
+        have hF := hall _ ((hmem _).mpr (Or.inr (Or.inr ⟨⟨q, ds.length⟩, tauStar_preds P hp _ hqP, hni, hno, rfl⟩)))
+        exact absurd hT ((emptyDefinition_sem T fc ⟨q, ds.length⟩ ρ).mp hF ds rfl)
+  · -- supported model ⇒ completion
+    rintro ⟨hmodel, hsupp⟩ F hF
+    rcases (hmem F).mp hF with ⟨c, hc, rfl⟩ | ⟨e, he, hin, rfl⟩ | ⟨p, _, hin, hno, rfl⟩
+    · obtain ⟨r, hr, hh, rfl⟩ := (mem_comps_constraint P _ c).mp ((hcons c).mp hc)
+      exact (constraint_sem T fc r hh ρ).mpr (hmodel r hr)
+    · obtain ⟨r0, hr0, a0, ch0, hh0, hA0, hl0⟩ := hentry e he
+      rw [show e = (e.1, e.2) from rfl] at he
+      refine (entry_sem P hp T fc ρ e.1 e.2 he a0 hl0 hA0).mpr ?_
+      rw [hA0, tauHeadAtom_predicate a0 _ hl0] at hin
+      intro ds hds
+      constructor
+      · intro hT
+        have hni : (⟨a0.pred, ds.length⟩ : Pred) ∉ ins := by
+          rw [hds]; exact hin
+        obtain ⟨r, hr, a, hh, hpa, σ, hv, hb⟩ := hsupp a0.pred ds hT hni
+        have hlen : a.args.length = a0.args.length := by rw [← valsList_length hv, hds]
+        rcases hh with hh | hh
+        · exact ⟨r, hr, a, false, Or.inl ⟨hh, rfl⟩, hpa, hlen, σ, hv, hb, fun e => by cases e⟩
+        · exact ⟨r, hr, a, true, Or.inr ⟨hh, rfl⟩, hpa, hlen, σ, hv, hb, fun _ => hT⟩
+      · rintro ⟨r, hr, a, ch, hh, hpa, _, σ, hv, hb, hc⟩
+        rcases hh with ⟨hh, rfl⟩ | ⟨hh, rfl⟩
+        · have := (hmodel r hr σ).2 hb
+          rw [hh] at this
+          rw [← hpa]; exact this ds hv
+        · exact hc rfl
+    · refine (emptyDefinition_sem T fc p ρ).mpr fun ds hds hT => ?_
+      have hni : (⟨p.symbol, ds.length⟩ : Pred) ∉ ins := by rw [hds]; exact hin
+      obtain ⟨r, hr, a, hh, hpa, σ, hv, _⟩ := hsupp p.symbol ds hT hni
+      have hh' : HeadOf r a (if r.head = .choice a then true else false) := by
+        rcases hh with hh | hh
+        · left; simp [hh]
+        · right; simp [hh]
+      obtain ⟨fs, hfs⟩ := hexists r hr a _ hh'
+      refine hno _ hfs ?_
+      rw [tauHeadAtom_predicate a _ (hla r hr a _ hh')]
+      simp only [Asp.Atom.predicate]
+      rw [hpa, ← valsList_length hv, hds]
+
 end Anthem
